@@ -284,4 +284,36 @@ theorem missing_bounds_error_names_unbounded_extreme (kind : ExtKind) (es : List
 theorem missing_bounds_example :
     linearizeWith exC exCb exC.domain = .error (.missingFiniteBounds ["x"]) := exC_fails
 
+/-- GLOBAL form.  Whenever compilation fails with `MissingFiniteBounds vs` — raised by an `abs`, `min` or
+`max` at any depth, in the objective, in a source constraint or in a constraint the linearizer generated —
+`vs` is strictly sorted and there are an expression `e` (the one being lowered) and a bounds map `bm` (the one
+of that moment, equal to the input map `b` on every variable of the input domain) such that `vs` consists
+EXACTLY of the variables of `e` whose lower or upper bound in `bm` is not finite. -/
+theorem missing_bounds_error_global {m : Model α} {b : BoundsMap α} {d : List (DomVar α)} {vs : List String}
+    (h : linearizeWith m b d = .error (.missingFiniteBounds vs)) :
+    WF.sortedStrict vs = true ∧
+    ∃ (e : Exp α) (bm : BoundsMap α),
+      (∀ x ∈ d.map (·.name), varBounds bm x = varBounds b x) ∧
+      ∀ x, x ∈ vs ↔ x ∈ expVars e ∧
+        ¬ (Arith.isFinite (varBounds bm x).lower = true ∧ Arith.isFinite (varBounds bm x).upper = true) := by
+  obtain ⟨e, bm, rfl, hbm⟩ := missing_bounds_global h
+  refine ⟨varsWithoutFiniteBounds_sorted e bm, e, bm, ?_, fun _ => mem_varsWithoutFiniteBounds⟩
+  intro x hx
+  unfold varBounds
+  rw [hbm x hx]
+
+/-- in particular: every SOURCE variable the error names really is unbounded in the bounds map the
+linearizer was given — the error never blames a variable whose derived range is finite. -/
+theorem missing_bounds_error_blames_unbounded {m : Model α} {b : BoundsMap α} {d : List (DomVar α)}
+    {vs : List String} (h : linearizeWith m b d = .error (.missingFiniteBounds vs)) :
+    ∀ x ∈ vs, x ∈ d.map (·.name) →
+      ¬ (Arith.isFinite (varBounds b x).lower = true ∧ Arith.isFinite (varBounds b x).upper = true) := by
+  obtain ⟨_, e, bm, hbm, hmem⟩ := missing_bounds_error_global h
+  intro x hx hd
+  rw [← hbm x hd]
+  exact ((hmem x).mp hx).2
+
+example : ¬ (Arith.isFinite (varBounds exCb "x").lower = true ∧ Arith.isFinite (varBounds exCb "x").upper = true) :=
+  missing_bounds_error_blames_unbounded missing_bounds_example "x" (by simp) (by decide)
+
 end Rooc.Props.C08
